@@ -28,13 +28,26 @@ TAG_MAP.update(
      univ.Real.tagSet: RealPayloadDecoder()}
 )
 
+# Character string and useful types are string types as well: no
+# constructed encoding in DER
+for tagSet, typeDecoder in list(TAG_MAP.items()):
+    if (isinstance(typeDecoder, decoder.OctetStringPayloadDecoder) and
+            typeDecoder.supportConstructedForm):
+        TAG_MAP[tagSet] = type(
+            typeDecoder.__class__.__name__, (typeDecoder.__class__,),
+            {'supportConstructedForm': False})()
+
 TYPE_MAP = decoder.TYPE_MAP.copy()
 
-# Put in non-ambiguous types for faster codec lookup
-for typeDecoder in TAG_MAP.values():
+# Put in non-ambiguous types for faster codec lookup. Codecs overridden
+# above must replace what has been inherited with the base map, otherwise
+# they would only be used when no ASN.1 schema is given.
+for tagSet, typeDecoder in TAG_MAP.items():
     if typeDecoder.protoComponent is not None:
         typeId = typeDecoder.protoComponent.__class__.typeId
-        if typeId is not None and typeId not in TYPE_MAP:
+        if typeId is not None and (
+                typeId not in TYPE_MAP or
+                typeDecoder is not decoder.TAG_MAP.get(tagSet)):
             TYPE_MAP[typeId] = typeDecoder
 
 
